@@ -335,6 +335,14 @@ class C20(Prop):
                       ("ad", BG.rand_addr(rng, "ipv4")), ("ad", ("unspec",)), ("ty", "ssl"), ("tv", 4, bytes(65535)), ("sl", bytes(65535)),
                       ("seca", 1, b"\x04\x00\x01\x2a\x05\x00\x00"), ("seca", 5, b"\x04\x00\x01\x2a\x05\x00\x00\x09")):
                 add(base, p)
+        # the size guard *between* the pieces one value is written in (address fields, type / length / value):
+        # every start offset, so that the guard trips before each piece in turn
+        for p in (("ad", BG.rand_addr(rng, "ipv4")), ("ad", BG.rand_addr(rng, "ipv6")), ("ad", BG.rand_addr(rng, "unix")),
+                  ("tv", 4, b""), ("tv", 4, b"xyz"), ("pr", 4, b""), ("pr", 4, b"xyz"), ("prt", "ssl", b""), ("prt", "ssl", b"ab"),
+                  ("sec", b"abc"), ("u32", 7)):
+            total = len(BG.payload_enc(p))
+            for start in range(65551 - total, 65554):
+                add(bytes([0x77]) * start, p)
         for _ in range(1500 if tier == "quick" else 60000):
             add(pre_small(), BG.rand_payload(rng))
         return ops
